@@ -370,8 +370,9 @@ func ensureAdd(root **V, p string, v *V, o Opts) Result {
 		case KArr:
 			if !isIdx(t) {
 				// an existing array has no members to descend into or to create: the add cannot be
-				// applied, with or without the option (the option creates MISSING parents only)
-				return Result{Cause: CIndexSyntax}
+				// applied, with or without the option (the option creates MISSING parents only).
+				// As without the option, this is a parent location that cannot be reached.
+				return Result{Cause: CParentUnreachable}
 			}
 			n, _, _ := ParseIdx(t)
 			if n < len(cur.Arr) {
